@@ -22,6 +22,11 @@ CHECKS = {
             "Gap identity decided symbolically for two independent modes (bilinear, hence any number); replayed against value_adiabatic - value_isothermal of the real classes on random spectra with arbitrary positive C_V; shear identity checked on all 15 keys.",
             "Trusted: as C01.",
             "DESIGN.md section 4 C02"),
+    "C03": ("model_checking",
+            "TLC verifies spectra/projectors of the 15 fictitious strains over Q(sqrt d) and decides Target(K)=c_K as an identity of linear forms over the 21 components (spec/ShearSolver.tla, QuadField.tla, C03.tla); request bags, eigenframe, rotated strains and exactness replayed on the real solver",
+            "Exactness for all tensors is decided symbolically (linear forms over 21 atoms, all 15 keys, 3 orthonormal splits of the degenerate eigenspace); the real solver is bound by comparing its request bags and rotated strains with the exported ones and by feeding it exact rotated components of 21 basis + random tensors.",
+            "Trusted: numpy.einsum rotation of test tensors in the harness; Q(sqrt d) arithmetic of QuadField.tla; the degenerate eigenspace is covered by three splits, not all.",
+            "DESIGN.md section 4 C03"),
 }
 
 NOT_YET = {
